@@ -287,31 +287,38 @@ func TestAllSplits(t *testing.T) {
 	}
 	defer env.Close()
 	c := stdgen.LoadCorpus(ev.RepoRoot())
-	limit := 700
+	limit := 400
 	if ev.Thorough() {
 		limit = 6000
 	}
 	shard, nshards := ev.EnvInt("VERIF_SHARD", 0), ev.EnvInt("VERIF_NSHARDS", 1)
 	idx := 0
+	// every (file, split) pair is one task; tasks are dealt round-robin to the shards
 	for _, k := range coroutineKinds(env) {
 		for _, f := range c.Small(k.Pkg(), limit) {
-			idx++
-			if idx%nshards != shard {
-				continue
+			if shard == 0 {
+				ev.Class("all-splits-file")
 			}
 			for split := 0; split <= len(f.Data); split++ {
+				idx++
+				if idx%nshards != shard {
+					continue
+				}
 				cs := Case{Kind: k.Name, Payload: f.Data, Source: "corpus:" + f.Name,
 					Plan: stdgen.Plan{SrcMode: 2, SrcList: []uint32{uint32(split), 1 << 30}, SrcExact: true, Closed: true}}
 				runCase(t, env, cs)
 			}
 			if k.Iface == stdh.IOT {
 				for step := uint32(1); step <= 40; step++ {
+					idx++
+					if idx%nshards != shard {
+						continue
+					}
 					cs := Case{Kind: k.Name, Payload: f.Data, Source: "corpus:" + f.Name,
 						Plan: stdgen.Plan{SrcExact: true, Closed: true, DstMode: 2, DstStep: step}}
 					runCase(t, env, cs)
 				}
 			}
-			ev.Class("all-splits-file")
 		}
 	}
 }
